@@ -919,7 +919,21 @@ func c08R7(p *Prog, r *Report) {
 			}
 			if rawPrm != nil && f0 != nil {
 				goal2 := g.PC.lenOf(rawPrm).Add(g.PC.Of(f0)).Sub(g.PC.Of(v)).Sub(g.PC.Of(nsamp)).Sub(polyConst(1))
-				if g.Prove(goal2, call) {
+				proven2 := g.Prove(goal2, call)
+				if !proven2 {
+					// the comparison may be written in a narrower integer type (sample indices as
+					// int32): read the conversions as the values themselves, for this evidence only
+					savedCache := summaryCache
+					summaryCache = map[summaryKey][]Fact{}
+					polyIgnoreNarrowing = true
+					g2 := NewGuardCtx(p, fn, nil)
+					goal2n := g2.PC.lenOf(rawPrm).Add(g2.PC.Of(f0)).Sub(g2.PC.Of(v)).Sub(g2.PC.Of(nsamp)).Sub(polyConst(1))
+					goal1n := g2.PC.Of(x).Sub(g2.PC.Of(v)).Sub(g2.PC.Of(nsamp)).Sub(polyConst(1))
+					proven2 = g2.Prove(goal2n, call) && !g2.Prove(goal1n, call)
+					polyIgnoreNarrowing = false
+					summaryCache = savedCache
+				}
+				if proven2 {
 					r.Bad("C08.R7", key, p.InstrPos(call), "the guards that control the call establish v + nsamp < end of the data, not v + nsamp < first frame not yet searched (the value passed as the next possible trigger): the last samples of a block are unsearched, a trigger there may still follow within one record, so the pending trigger is written too early and its record is cut at the search horizon (or dropped in isolated mode)")
 					return
 				}
